@@ -1033,8 +1033,6 @@ package server
 
 //@ assumed (*MetaContext).RegisterQuerySideInput
 //@   pure
-//@ assumed (*Store).mergePartials
-//@   modifies map[string]interface{}, []interface{}
 //@ assumed (*Store).createMultiOriginEntity
 //@   pure
 //@   ensures result != nil
@@ -1356,9 +1354,6 @@ package server
 //@   pure
 //@ assumed os.WriteFile
 //@   pure
-//@ assumed (*Store).GetObject
-//@   preserves Store.database, Store.NamespaceManager, Store.nextDatasetID, Store.storeLocation, NamespaceManager.lock
-
 //@ unit (*Store).Open
 //@   prop C14
 //@   opt single-threaded
@@ -1397,6 +1392,7 @@ package server
 //@ unit (*Store).GetObject
 //@   prop C14
 //@   requires-inv [the-store-exists] s != nil
+//@   frame-assumed preserves Store.database, Store.NamespaceManager, Store.nextDatasetID, Store.storeLocation, NamespaceManager.lock
 //@   safe slice
 //@   at call readValue#1 before
 //@     assert [C14:object-read-from-the-key-of-its-collection-and-id] isObjKey(key, collection, id)
@@ -1415,6 +1411,7 @@ package server
 // - freshly decoded, pairwise distinct entities and lists - are assumed here for the partials of one lookup.)
 //@ unit (*Store).mergePartials
 //@   prop C01
+//@   frame-assumed preserves Store.*, Dataset.*, map[uint32]bool, []*server.Entity
 //@   ghost mergedG int = 0
 //@   requires s != nil
 //@   requires forall i int :: 0 <= i && i < len(partials) ==> partials[i] != nil
